@@ -120,6 +120,9 @@ def run_sqlite(text, pred, user_flags=None, import_root=None, database=':memory:
   except Exception as e:  # noqa: BLE001
     if 'interrupted' in str(e):
       return Outcome('too_big', message='SQLite step budget of the harness exhausted', sql=c.sql)
+    if 'parser stack overflow' in str(e) or 'at most 64 tables' in str(e):
+      # capacity limits of the engine (nesting depth of the statement, width of a join), not properties of the text
+      return Outcome('too_big', message='SQLite capacity limit: %s' % e, sql=c.sql)
     return Outcome('sql_error', error=e, message='%s: %s' % (type(e).__name__, e), sql=c.sql)
   return Outcome('ok', header=header, rows=[list(r) for r in rows], sql=c.sql, defines=c.defines,
                  main=c.main, preamble=c.preamble, program=c.program)
@@ -202,11 +205,20 @@ def cpp_cache_home():
   root = os.path.join(core.VERIF, '.cache_cpp')
   d = os.path.join(root, h)
   os.makedirs(d, exist_ok=True)
-  # keep the cache small: drop all other versions
+  # keep the cache small: drop versions of other sources, but never one that a concurrent run may be using
+  import shutil
+  import time
   for other in os.listdir(root):
-    if other != h:
-      import shutil
-      shutil.rmtree(os.path.join(root, other), ignore_errors=True)
+    po = os.path.join(root, other)
+    try:
+      if other != h and time.time() - os.path.getmtime(po) > 6 * 3600:
+        shutil.rmtree(po, ignore_errors=True)
+    except OSError:
+      pass
+  try:
+    os.utime(d, None)
+  except OSError:
+    pass
   return d
 
 
